@@ -69,6 +69,10 @@ known('C17', 'F27', "PiecewiseQuadraticCDF(shape, num_bins=1, tails='linear') / 
       {'fn': 'quad', 'tails': True, 'K': 1, 'symptom': 'raises-IndexError'})
 known('C19', 'F24', 'cubic_spline(inverse=True) in float32: the Cardano / trigonometric root formulas lose accuracy in single precision for some parameter values; e.g. PiecewiseCubicCouplingTransform(tails=linear, tail_bound=2.5).inverse at y = 2.5 returned 0.2233 and a NaN log-abs-det (float64 twin: 2.5, 7.108)',
       {'family': 'cubic', 'inverse': True, 'dtype': 'float32'})
+known('C19', 'F32', 'cubic_spline(inverse=False) in float32 at the END of a bin whose knot derivative is tiny (sigmoid(unnormalized_derivatives_right) ~ 4e-8): the log-abs-det log(3a s^2 + 2b s + c) is evaluated by cancellation and comes out NaN (negative argument) or off by O(1) (-15.0 for -12.9 at udr = -14); witness: num_bins 3, torch.manual_seed(1) widths/heights, derivatives_left 0, derivatives_right -17, x = 1.0 -> NaN (float64: -15.88). Forward sibling of F24/F26; a repair means evaluating the derivative in Bernstein form (exact at the bin ends), which changes the formula the whole cubic model and its proofs are about',
+      {'family': 'cubic', 'inverse': False, 'dtype': 'float32'})
+known('C17', 'F32', 'cubic_spline(inverse=False) in float32: an in-domain input on the end of a nearly flat bin gets a NaN log-abs-det (see C19 F32)',
+      {'fn': 'cubic', 'symptom': 'in-domain-fails', 'prec': 'f32'})
 known('C16', 'F25', 'cubic_spline(inverse=True): for some strongly non-uniform parameter values the gradient autograd returns is NaN/inf although the value is finite (sqrt at a vanishing discriminant / masked one-root vs three-root branches); e.g. PiecewiseCubicCouplingTransform on images with perturbed ConvResidualNet parameters; second witness, derived from the Lean theorem NF.WellDefined.cubic_inverse_cardano_log_zero and replayed on the code: ONE bin, zero widths/heights, unnorm_derivatives_left = -log 6, _right = log(4/3): every in-domain y takes the Cardano branch with one cube-root argument exactly 0 (cbrt = sign(x) exp(log|x|/3)): values correct, every gradient NaN',
       {'family': 'cubic', 'inverse': True, 'symptom': 'grad-nonfinite'})
 json.dump(F, open(os.path.join(HERE, 'known_findings.json'), 'w'), indent=1)
